@@ -137,6 +137,11 @@ def partition_guard_rules(F, ok, rep, P):
         pf = ok.path_facts(b)
         tgt = [i for i, t in b.calls() if re.search(r"Iterator::collect$|Iterator::map$", callee_name(t))]
         if not tgt:
+            # an explicit loop instead of map/collect: the place where the partitions are read
+            tgt = [i for i, t in b.calls() if (t["f"].get("path") or "").startswith("bitstream_io::BitRead::parse")]
+        if not tgt:
+            tgt = [bi for bi, bl in enumerate(b.blocks) for st_ in bl["s"] if st_["rv"]["r"] == "agg" and st_["rv"].get("adt") == "std::ops::Range"]
+        if not tgt:
             rep.bad(P + ".part", "anchor:partition loop in read_partitions", loc_of(b), "not found")
         else:
             f = pf.get(tgt[0], TOP)
